@@ -1,3 +1,4 @@
+import reprlib
 import sys
 from collections.abc import MutableSequence, MutableSet, Sequence, Set
 from typing import Any, Callable, Generic, Iterable, Optional, Tuple, Type, TypeVar
@@ -428,6 +429,7 @@ class KeyedSet(Generic[ItemType, KeyType], MutableSet, KeyedBase):  # pylint: di
                 return False
         return NotImplemented
 
+    @reprlib.recursive_repr(fillvalue="{...}")
     def __repr__(self):
         return f"{type_label(self._type)}({{{', '.join(repr(value) for value in self._dict.values())}}})"
 
